@@ -1,6 +1,6 @@
 """C04 — start-radius / starting-family independence: the span of the analytic starting vectors is invariant under the solver's own ODE flow in a uniform sphere;
 the truncated series (phi, psi, z Taylor branch) equal the exact series to their stated order; the driver dispatches each layer kind to the matching family."""
-import sys, os, math, re, itertools
+import sys, os, math, re, itertools, ast
 sys.path.insert(0, os.path.dirname(os.path.dirname(os.path.abspath(__file__))))
 import z3
 from fractions import Fraction as Fr
@@ -44,7 +44,7 @@ def det(M):
 class Harness:
     """executes one starting-condition family from the current source on symbols (formal-indeterminate mode) for a homogeneous sphere"""
 
-    def __init__(self, fam, l):
+    def __init__(self, fam, l, transform=None):
         self.fam, self.l = fam, l
         file, fname, self.ode, self.nsol = FAMILIES[fam]
         self.pi = set_pi()
@@ -54,7 +54,7 @@ class Harness:
         self.sq = []          # (atom, argument)
         self.phi = []         # (phi atom, phi_{l+1} atom, argument)
         ns = {'pi': self.pi, 'cf_z_calc': self._z, 'cf_csqrt': self._sqrt, 'cf_takeuchi_phi_psi': self._phipsi}
-        fns, _ = loader.load_pyx(ST + file, [fname], ns)
+        fns, _ = loader.load_pyx(ST + file, [fname], ns, transform=transform)
         src = open(os.path.join(REPO, ST + file)).read()
         _, argnames = pyx2py._conv_header(pyx2py.find_function(src, fname)[0])
         self.nys = 2 * self.nsol
@@ -104,7 +104,7 @@ class Harness:
 
 
 # ---- numeric replay (float evaluation of the transliterated current source with exact special functions)
-def numeric_span_residual(fam, l, j, radius=0.35):
+def numeric_span_residual(fam, l, j, radius=0.35, transform=None):
     import numpy as np
     import mpmath as mp
     file, fname, ode, nsol = FAMILIES[fam]
@@ -126,7 +126,7 @@ def numeric_span_residual(fam, l, j, radius=0.35):
         c[0] = 2 * (2 * l + 3) * (1 - ph) / complex(z2)
     import cmath
     ns = {'cf_z_calc': z_calc, 'cf_csqrt': cmath.sqrt, 'cf_takeuchi_phi_psi': phipsi}
-    fns, _ = loader.load_pyx(ST + file, [fname], ns, float_mode=True)
+    fns, _ = loader.load_pyx(ST + file, [fname], ns, float_mode=True, transform=transform)
     src = open(os.path.join(REPO, ST + file)).read()
     _, argnames = pyx2py._conv_header(pyx2py.find_function(src, fname)[0])
 
@@ -149,8 +149,32 @@ def numeric_span_residual(fam, l, j, radius=0.35):
     return float(np.linalg.norm(left) / scale)
 
 
-def job_span(fam, l):
-    H = Harness(fam, l)
+class _OwnY5(ast.NodeTransformer):
+    """the recorded Takeuchi defect factored out: READS `starting_conditions_ptr[0 * num_ys + 4]` / `[1 * num_ys + 4]` (the y5 of solution slot 0 / 1, hard-coded) become
+    `[pos_index * num_ys + 4]` / `[neg_index * num_ys + 4]` (the solution's own y5). Nothing else of the function is touched."""
+    def __init__(self):
+        self.n = 0
+
+    def visit_Subscript(self, node):
+        self.generic_visit(node)
+        if isinstance(node.ctx, ast.Load) and getattr(node.value, 'id', None) == 'starting_conditions_ptr':
+            txt = ast.unparse(node.slice).replace(' ', '')
+            for lit, nm in (('0*num_ys+4', 'pos_index'), ('1*num_ys+4', 'neg_index')):
+                if txt == lit:
+                    self.n += 1
+                    node.slice = ast.parse('%s * num_ys + 4' % nm, mode='eval').body
+        return node
+
+
+def job_span(fam, l, own_y5=False):
+    tr = _OwnY5() if own_y5 else None
+    H = Harness(fam, l, transform=(lambda node: tr.visit(node)) if tr else None)
+    if own_y5:
+        # separate obligations (own keys): with the recorded defect factored out the family must be regular, so that any OTHER change to these functions is still reported
+        fam_tag = fam + ' [recorded y6/y5 index defect factored out: %d reads rewritten]' % tr.n
+    else:
+        fam_tag = fam
+    fkey = fam + ('+own_y5' if own_y5 else '')
     n, nys = H.nsol, H.nys
     results = []
     A = H.pos + H.side
@@ -161,7 +185,7 @@ def job_span(fam, l):
 
         def rp(md, j=j):
             try:
-                v = numeric_span_residual(fam, l, j)
+                v = numeric_span_residual(fam, l, j, transform=(lambda node: _OwnY5().visit(node)) if own_y5 else None)
             except Exception as e:
                 return True, 'numeric replay failed to run: %r' % e
             return v > 1e-6, '%s l=%d solution %d: relative distance of (ds/dr - A s) from span{s_j, s_last} = %.3e at r=0.35 (float evaluation of the transliterated current source, exact Bessel functions)' % (fam, l, j, v)
@@ -172,8 +196,8 @@ def job_span(fam, l):
             for i in range(nys):
                 if i != p0:
                     conds.append(eq_goal(H.s[j][p0] * res[i] - H.s[j][i] * res[p0], Q(0)))
-            results.append(discharge(Obligation('%s l=%d: solution %d (power-law): ds/dr - A s is parallel to s (all 2x2 minors with the pivot row vanish)' % (fam, l, j), z3.And(*conds), A, replay=rp,
-                                                key='span:%s:sol%d' % (fam, j), timeout_ms=solve.qtimeout(60, 300))))
+            results.append(discharge(Obligation('%s l=%d: solution %d (power-law): ds/dr - A s is parallel to s (all 2x2 minors with the pivot row vanish)' % (fam_tag, l, j), z3.And(*conds), A, replay=rp,
+                                                key='span:%s:sol%d' % (fkey, j), timeout_ms=solve.qtimeout(60, 300))))
             tw = reach_twin('%s l=%d sol %d pivot non-zero' % (fam, l, j), A + [z3.Not(eq_goal(H.s[j][p0], Q(0)))], timeout_ms=60000)
             results.append(tw)
         else:
@@ -181,8 +205,8 @@ def job_span(fam, l):
                 if i in pivot:
                     continue
                 M = [[H.s[j][a], H.s[last][a], res[a]] for a in (pivot[0], pivot[1], i)]
-                results.append(discharge(Obligation('%s l=%d: solution %d: ds/dr - A s lies in span{s_%d, s_%d}: 3x3 minor rows (y%s) vanishes' % (fam, l, j, j, last, ','.join(str(a + 1) for a in (pivot[0], pivot[1], i))),
-                                                    eq_goal(det(M), Q(0)), A, replay=rp, key='span:%s:sol%d' % (fam, j), timeout_ms=solve.qtimeout(60, 300))))
+                results.append(discharge(Obligation('%s l=%d: solution %d: ds/dr - A s lies in span{s_%d, s_%d}: 3x3 minor rows (y%s) vanishes' % (fam_tag, l, j, j, last, ','.join(str(a + 1) for a in (pivot[0], pivot[1], i))),
+                                                    eq_goal(det(M), Q(0)), A, replay=rp, key='span:%s:sol%d' % (fkey, j), timeout_ms=solve.qtimeout(60, 300))))
             piv = det([[H.s[j][a], H.s[last][a]] for a in pivot])
             results.append(reach_twin('%s l=%d sol %d pivot minor non-zero' % (fam, l, j), A + [z3.Not(eq_goal(piv, Q(0)))], timeout_ms=60000))
     return {'results': results, 'encoded': loader.ENCODED, 'axioms': CTX.axiom_notes + ['z = x j_{l+1}/j_l atom with dz/d(x^2) = (x^2 + z^2 - (2l+1) z)/(2 x^2)',
@@ -337,6 +361,8 @@ def main():
     for fam in FAMILIES:
         for l in ls:
             jobs.append((job_span, {'fam': fam, 'l': l}))
+            if fam in ('takeuchi_solid_dynamic_compressible', 'takeuchi_solid_static_compressible'):
+                jobs.append((job_span, {'fam': fam, 'l': l, 'own_y5': True}))
     for l in ls:
         jobs.append((job_series, {'l': l}))
     jobs.append((job_driver, {}))
